@@ -1460,6 +1460,11 @@ class Interp:
             if v.base_list:
                 return self.truth(st, v.fields[v.base_list])
             return True
+        if isinstance(v, SExc) and "__bool__" in v.attrs:
+            # CPython: truth of an instance is __bool__(), else __len__() != 0, else True.  BaseException defines
+            # neither, but a subclass may (an error collection with __len__): whoever models the exception value may
+            # give its truth value as the modelled attribute `__bool__` (a symbolic bool = "unknown class")
+            return self.truth(st, v.attrs["__bool__"])
         if isinstance(v, (SOpaque, FnVal, Method, SSlice, SExc)):
             t = getattr(v, "meta", {}).get("truth") if isinstance(v, SOpaque) else None
             if t is not None:
